@@ -103,7 +103,7 @@ func (g *genCfg) genVariadicCtx(id string) *Case {
 			c.Args = append(c.Args, ng.gen(c.Sig.In[n], 0))
 			c.Forms = append(c.Forms, "var")
 			if r.Intn(5) == 0 {
-				// `m(a, nil...)` (F07-16, repaired by 0b75d2f)
+				// `m(a, nil...)` (F07-16, repaired by 57dd9e4)
 				c.Args[n], c.Forms[n] = &Val{T: c.Sig.In[n], Nil: true}, "const"
 			}
 		}
@@ -134,7 +134,7 @@ func (g *genCfg) genVariadicCtx(id string) *Case {
 		c.Args = append(c.Args, ng.gen(ins[n], 0))
 		c.Forms = append(c.Forms, "var")
 		if r.Intn(5) == 0 {
-			// `hp.F(a, nil...)` (F07-16, repaired by 0b75d2f)
+			// `hp.F(a, nil...)` (F07-16, repaired by 57dd9e4)
 			c.Args[n], c.Forms[n] = &Val{T: ins[n], Nil: true}, "const"
 		}
 	}
@@ -199,7 +199,7 @@ func (g *genCfg) genBuiltinInMultiReturn(id string) *Case {
 
 // genSpreadViaFuncValue: `fv(cb, xs...)` through a variable of a script-written function type holding a host function, with a
 // fixed argument that needs preparation (a declared function, an interpreted value for a host interface): the shape of F07-17,
-// repaired by 449969c and kept in the in-domain stream.
+// repaired by 5b28270 and kept in the in-domain stream.
 func (g *genCfg) genSpreadViaFuncValue(id string) *Case {
 	r := g.rng
 	var ins []*TypeD
